@@ -412,7 +412,16 @@ def job_stream(job) -> report.JobResult:
             def gen():
                 for it in items:
                     yield dict(it)
-            ev, done = gw.run_wsgi(M.SendEventResponse(gen(), ping_interval=30), {"REQUEST_METHOD": "GET"})
+            if job.get("second_request"):
+                # one response object built around a re-iterable event source, mounted as an application: the SECOND client gets the same stream
+                class Source:
+                    def __iter__(self):
+                        return gen()
+                app = M.SendEventResponse(Source(), ping_interval=30)
+                gw.run_wsgi(app, {"REQUEST_METHOD": "GET"})
+                ev, done = gw.run_wsgi(app, {"REQUEST_METHOD": "GET"})
+            else:
+                ev, done = gw.run_wsgi(M.SendEventResponse(gen(), ping_interval=30), {"REQUEST_METHOD": "GET"})
             wire = b"".join(x[1] for x in ev if x[0] == "body")
         else:
             async def gen():
@@ -451,7 +460,7 @@ def job_stream(job) -> report.JobResult:
             klass, detail = f.klass, f.detail
         e.last_sat = False
         m = e.witness()
-        wit = {"iface": iface, "sequence": job["seq"], "data": [conc(d0, m), conc(d1, m)]}
+        wit = {"iface": iface, "sequence": job["seq"], "data": [conc(d0, m), conc(d1, m)], "second_request": bool(job.get("second_request"))}
         if job.get("quiet"):
             wit["quiet_ticks_before_each_event"] = [m.eval(dv, True).as_long() for dv in delays]
         replayed = klass is not None or res["validated"] < 40
@@ -489,7 +498,15 @@ def concrete_stream(w) -> Optional[str]:
             def gen():
                 for it in items:
                     yield dict(it)
-            ev, done = gw.run_wsgi(WR.SendEventResponse(gen(), ping_interval=30), {"REQUEST_METHOD": "GET"})
+            if w.get("second_request"):
+                class Source:
+                    def __iter__(self):
+                        return gen()
+                app = WR.SendEventResponse(Source(), ping_interval=30)
+                gw.run_wsgi(app, {"REQUEST_METHOD": "GET"})
+                ev, done = gw.run_wsgi(app, {"REQUEST_METHOD": "GET"})
+            else:
+                ev, done = gw.run_wsgi(WR.SendEventResponse(gen(), ping_interval=30), {"REQUEST_METHOD": "GET"})
             wire = b"".join(x[1] for x in ev if x[0] == "body")
         else:
             async def gen():
@@ -521,6 +538,7 @@ def jobs(tier: str):
     for iface in ("wsgi", "asgi"):
         for seq in ("plain", "with-empty", "empty-first"):
             out.append(dict(name=f"stream/{iface}/{seq}", kind="stream", iface=iface, seq=seq, charset="utf-8", fields=[]))
+    out.append(dict(name="stream/wsgi/plain/second-request-on-the-same-object", kind="stream", iface="wsgi", seq="plain", charset="utf-8", fields=[], second_request=True))
     for seq in ("plain", "with-empty"):
         out.append(dict(name=f"stream/asgi/{seq}/quiet-producer", kind="stream", iface="asgi", seq=seq, charset="utf-8", fields=[], quiet=True))
     for charset in b["charsets"]:
